@@ -31,6 +31,11 @@ PROPS = {
     "C19": {"jobs": [{"pkg": "order", "run": "^TestC19$", "checks_quick": 60000, "checks_thorough": 150000, "shards_thorough": 16}]},
 }
 
+for _pid, _q, _t in (("C02", 2500, 4000), ("C03", 2500, 4000), ("C04", 2500, 4000)):
+    PROPS[_pid]["jobs"].append({"pkg": "conc", "run": "^Test%sConc$" % _pid, "checks_quick": _q, "checks_thorough": _t, "shards_thorough": 8})
+for _pid in ("C02", "C03"):
+    PROPS[_pid]["jobs"].append({"pkg": "conc", "run": "^Test%sMulti$" % _pid, "checks_quick": 2500, "checks_thorough": 4000, "shards_thorough": 8})
+
 PROPS["C20"] = {"jobs": [{"pkg": "keys", "run": "^TestC20$", "checks_quick": 1500, "checks_thorough": 2500, "shards_thorough": 16}]}
 
 HOOK_COMMITS = ["0049d5e", "3ca7037", "66fb88e"]
